@@ -61,8 +61,6 @@ def truthful(divs, parts):
         if len(p) == 0:
             continue
         idx = p.index
-        if not idx.is_monotonic_increasing:
-            return f"partition {i} not in index order"
         lo, hi = idx.min(), idx.max()
         if lo < divs[i]:
             return f"partition {i} has index {lo!r} below its division {divs[i]!r}"
